@@ -123,6 +123,36 @@ def fieldCode (co : COpts) (f : Field) (t : GoType) (cv ce : Nat → Program) (i
     The body of a named type is supplied by the parameter `lib` (`LibCode`), which `libK` below defines level by
     level: each unfolding puts the name into `tab`, so as many levels as there are names suffice (`libLeft`). -/
 
+/-- the callback library types of go/harness (types.go, ops_enc.go): `(json, valueReceiver)` - json.Marshaler or
+    encoding.TextMarshaler, implemented on the value or on the pointer -/
+def cbKind : String → Option (Bool × Bool)
+  | "MV" | "LJ" => some (true, true)
+  | "MP" | "LJP" => some (true, false)
+  | "TV" | "LT" => some (false, true)
+  | "TP" => some (false, false)
+  | _ => none
+
+/-- compiler.go:137 tryCompileMarshaler for the named type `n` itself: through a pointer (`pv`) the `_p` instruction on `*n`
+    (the pointer type has every method), else the value-receiver instruction; `none`: a pointer-receiver type that is
+    not addressable has no usable method and is compiled as the plain struct it is (outside the model) -/
+def cbCode (n : String) (pv : Bool) : Option Program :=
+  match cbKind n with
+  | none => none
+  | some (json, valueRecv) =>
+    if pv then some [if json then Instr.marshalP (.ptr (.lib n)) else Instr.marshalTextP (.ptr (.lib n))]
+    else if valueRecv then some [if json then Instr.marshal (.lib n) else Instr.marshalText (.lib n)]
+    else none
+
+/-- compiler.go:696 compileMarshaler for `*n`: nil is `null`, else the method is called through the pointer -/
+def cbPtrCode (t : GoType) (pc : Nat) : Option Program :=
+  match t with
+  | .lib n =>
+    match cbKind n with
+    | some (json, _) =>
+      some [Instr.isNil (pc + 3), if json then Instr.marshal (.ptr (.lib n)) else Instr.marshalText (.ptr (.lib n)), Instr.goto (pc + 4), Instr.null]
+    | none => none
+  | _ => none
+
 mutual
 /-- identity of Go types as far as the universe distinguishes them -/
 def typeEq : GoType → GoType → Bool
@@ -165,7 +195,9 @@ def code (co : COpts) (lib : LibCode) (tab : List GoType) (pc sp : Nat) (pv : Bo
   | .bytes => [.isNil (pc + 3), .bin, .goto (pc + 4), .emptyArr]      -- :368 compileSlice, :373 IsSimpleByte
   | .lib n =>
     if tabHas tab (.lib n) then [.recurse (.lib n) pv]
-    else (lib (.lib n :: tab) n pc sp pv).getD [.unsupported (.lib n)]
+    else match cbCode n pv with
+      | some c => c                                   -- :170 tryCompileMarshaler
+      | none => (lib (.lib n :: tab) n pc sp pv).getD [.unsupported (.lib n)]
   | .sl t =>
     if tabHas tab (.sl t) then [.recurse (.sl t) pv]
     else if isU8 t then [.isNil (pc + 3), .bin, .goto (pc + 4), .emptyArr]
@@ -186,7 +218,9 @@ def code (co : COpts) (lib : LibCode) (tab : List GoType) (pc sp : Nat) (pv : Bo
       [.byte 91, .save (n != 0)] ++ first ++ arrRest f (tsize t) (n - 1) 1 (pc + 2 + first.length) ++ [.drop, .byte 93]
   | .ptr t =>
     if tabHas tab (.ptr t) then [.recurse (.ptr t) pv]
-    else
+    else match cbPtrCode t pc with
+    | some c => c                                     -- :147 / :159 `*n` implements the interface: compileMarshaler
+    | none =>
       -- :244 compilePtr, :248 compilePtrBody
       let b := code co lib (.ptr t :: tab) (pc + 3) (sp + 1) true t
       [.isNil (pc + 3 + b.length + 2), .save false, .deref] ++ b ++ [.drop, .goto (pc + 3 + b.length + 3), .null]
@@ -271,7 +305,7 @@ end
 mutual
 /-- no callback type inside (library types with methods, json.RawMessage): the part of the universe `compile` speaks about -/
 def noLib : GoType → Bool
-  | .lib n => libNames.contains n
+  | .lib n => libNames.contains n || (cbKind n).isSome
   | .raw => false
   | .sl t | .arr _ t | .ptr t => noLib t
   | .map k t => noLib k && noLib t
